@@ -176,6 +176,67 @@ def part_cf(rep, tier, seed, layouts):
     return cases, {"states": r.distinct, "transitions": r.generated}
 
 
+def ptr_key(c):
+    def one(x):
+        return "%s:%s:%d" % (x["kd"], x["way"], x["a"])
+    return "ptr " + one(c["c1"]) + (" " + one(c["c2"]) if c["c2"]["kd"] else "")
+
+
+def check_ptr_cases(rep, cases, layouts, seed, tag):
+    """replay the caller/callee family: accepted programs must print what the machine printed,
+    programs the machine refuses (a write through a value / word / view parameter) must be rejected"""
+    programs = [c["prog"] for c in cases]
+    results = mc.run_programs(programs, layouts, seed, tag)
+    checked = 0
+    for c, res in zip(cases, results):
+        key = ptr_key(c)
+        for r in res["results"]:
+            checked += 1
+            layout = r["layout"]
+            if c["status"] == "illegal":
+                if "stdout" in r or "lli" in r:
+                    rep.violation("ptr", key + " :: accepted-illegal",
+                                  {"problem": "the callee writes through a parameter that is neither a pointer nor reached through one; "
+                                              "the specification's machine refuses the program, the compiler accepted it",
+                                   "result": r, "source": res["source"]})
+                elif "crash" in r or r.get("panic"):
+                    rep.violation("ptr", key + " :: crash", {"problem": "crash", "result": r, "source": res["source"]})
+                continue
+            if "stdout" not in r:
+                what = "crash" if ("crash" in r or "lli" in r or r.get("panic")) else "rejected"
+                sig = ",".join(sorted(set("E%d" % d[0] for d in r.get("diags", []) or [])))
+                rep.violation("ptr", key + " :: " + what + (" " + sig if sig else ""),
+                              {"problem": "a well-formed program of the caller/callee family is " + what, "result": r,
+                               "source": res["source"]})
+                continue
+            want = [mc.shown(v, "i32") for v in c["out"]]
+            got = [ln for ln in r["stdout"].split("\n") if ln != ""]
+            if got != want or r.get("exit") != 0:
+                rep.violation("ptr", key + (" :: layout" if layout else " :: output"),
+                              {"expected_lines": want, "observed_lines": got, "exit": r.get("exit"), "layout": layout,
+                               "cells": "x y arr[0] arr[1] s.m s.a[0] s.a[1] w.m w.n p py, before and after the call (the callee's own prints in between)",
+                               "source": r.get("source", res["source"])})
+    return checked
+
+
+def part_ptr(rep, tier, seed, layouts):
+    cfg = "MC_MachinePtr_%s.cfg" % tier
+    r = common.tlc("MC_MachinePtr", cfg, workers=6, timeout=1500, heap="8g", tag="C01-ptr-%d" % os.getpid())
+    if not r.ok:
+        raise common.ToolError("MC_MachinePtr: invariant %s violated (the machine breaks its own invariant: non-interference / "
+                               "legality / stored values fit their types)" % r.violated)
+    cases = r.cases
+    done = [c for c in cases if c["status"] == "done"]
+    changed = [c for c in done if c["out"][:11] != c["out"][-11:]]
+    log("[tlc] MC_MachinePtr/%s: %d states, %d programs (%d run to completion, %d change a caller cell, %d refused as illegal), %.1fs" %
+        (cfg, r.distinct, len(cases), len(done), len(changed), len(cases) - len(done), r.wall))
+    if not changed or len(done) == len(cases):
+        raise common.ToolError("MC_MachinePtr is vacuous: no program changes a caller cell / none is refused")
+    checked = check_ptr_cases(rep, cases, layouts, seed, "C01-ptr")
+    log("[replay] caller/callee family: %d programs x %d layouts, %d comparisons" % (len(cases), layouts, checked))
+    return cases, {"states": r.distinct, "transitions": r.generated, "changed": len(changed), "done": len(done)}
+
+
 def part_random(rep, tier, seed, layouts):
     from . import machine_trace
     return machine_trace.run_random(rep, "C01", tier, seed, layouts)
@@ -185,6 +246,7 @@ def run(rep, tier, seed, selftest):
     layouts = 2 if tier == "quick" else 4
     cells, live, st_ops, ops_programs = part_ops(rep, tier, seed, layouts)
     cf_cases, st_cf = part_cf(rep, tier, seed, layouts)
+    ptr_cases, st_ptr = part_ptr(rep, tier, seed, layouts)
     rnd = part_random(rep, tier, seed, layouts)
     selftests = {}
     if selftest or tier == "thorough":
